@@ -36,6 +36,8 @@ Definition r_isnan (r : mref) : res bool := match r with MVal v => b_isnan v | _
 Definition r_val (r : mref) : pyv := match r with MVal v => v | _ => POther end.
 Definition r_items (r : mref) : list pyv := match r with MSeq vs | MSet vs => vs | _ => [] end.
 Definition r_is_type_int (r : mref) : bool := match r with MType TInt => true | _ => false end.
+(* issubclass(int, other): int and object (bool is a subclass of int, not the other way round) *)
+Definition r_type_accepts_int (r : mref) : bool := match r with MType TInt | MType TObject => true | _ => false end.
 Definition r_nargs (r : mref) : pyv := match r with MFun n _ => PInt n | _ => PInt 0 end.
 Definition r_call (r : mref) (v : pyv) : res bool := match r with MFun _ f => f v | _ => Raise TypeError end.
 Definition r_type (r : mref) : pytype := match r with MType t => t | _ => TObject end.
